@@ -56,7 +56,7 @@ type gen struct {
 	fns    []fnSig
 	hasU   bool // uniform struct available
 	hasBuf bool
-	hasPriv,
+	hasPriv, hasGrid,
 	hasWG bool
 	inLoop   int
 	compute  bool
@@ -368,6 +368,9 @@ func (g *gen) vecExpr(t ty, depth int) string {
 			}
 		}
 	}
+	if g.hasGrid && t == (ty{"f32", 2}) && g.chance(25) {
+		return g.pick([]string{"grid[0][1]", "grid[2][0]", "grid[1][1 - 1]"})
+	}
 	// constructor
 	var args []string
 	switch {
@@ -466,6 +469,13 @@ func (g *gen) stmt(ind, depth int) {
 		}
 		g.declare(variable{name: name, t: t})
 	case 2, 3:
+		if g.chance(15) {
+			name := g.fresh("cells")
+			sp := g.pick([]string{" ", " ", ""})
+			g.line(ind, "var %s: array<i32, 2>%s= array<i32, 2>(%s, %s);", name, sp, g.expr(tI32, 1), g.expr(tI32, 1))
+			g.line(ind, "%s[1] = %s[0] + %s;", name, name, g.expr(tI32, 1))
+			return
+		}
 		t := g.randTy(true)
 		name := g.fresh("")
 		switch g.intn(0, 2, "varform") {
@@ -742,7 +752,7 @@ func (g *gen) helper(idx int) {
 func Program(t *rapid.T) string {
 	g := &gen{t: t, names: map[string]bool{"params": true, "data": true, "inp": true, "scratch": true,
 		"shared_vals": true, "Params": true, "CA": true, "CB": true, "CF": true, "Vf": true, "main": true,
-		"vs_main": true, "fs_main": true, "layer": true, "texel": true, "out": true, "VsOut": true, "pos": true, "gid": true, "lid": true, "tex": true, "samp": true, "uv": true, "vi": true}}
+		"vs_main": true, "fs_main": true, "grid": true, "layer": true, "texel": true, "out": true, "VsOut": true, "pos": true, "gid": true, "lid": true, "tex": true, "samp": true, "uv": true, "vi": true}}
 	g.push()
 	g.compute = g.chance(65)
 	if g.chance(30) {
@@ -778,6 +788,11 @@ func Program(t *rapid.T) string {
 	if g.chance(70) {
 		g.hasPriv = true
 		g.line(0, "var<private> scratch: array<i32, 4>;")
+	}
+	if g.chance(50) {
+		sp := func() string { return g.pick([]string{"", "", " ", "\n    "}) }
+		g.line(0, "var<private> grid: array<array<vec2<f32%s>%s, 2%s>%s, 3%s>;", sp(), sp(), sp(), sp(), sp())
+		g.hasGrid = true
 	}
 	if g.compute && g.chance(60) {
 		g.hasWG = true
